@@ -281,6 +281,14 @@ pub fn scenarios() -> Vec<Vec<Op>> {
     ] {
         let mut sc = deps.clone(); sc.push(t); v.push(sc);
     }
+    // typed input that does not fit the row (large font / several lines): the automatic row
+    // height must be part of the recorded diff, or undo and the replicas miss it
+    for (size, text) in [("40", "Hello"), ("40", "12"), ("22", "a\nb\nc"), ("40", "=A1+1")] {
+        v.push(vec![
+            Op::RangeStyle { area: blk(3, 2, 1, 1), path: "font.size".into(), value: size.into() },
+            Op::Input { sheet: 0, row: 3, col: 2, text: text.into() },
+        ]);
+    }
     v
 }
 
